@@ -32,10 +32,13 @@ func IntActual(v int) int64 {
 	if a < 0 {
 		a = -a
 	}
-	if a < Big {
+	if a < Big/2 {
 		return int64(v)
 	}
-	x := BigBase + (a - Big)
+	// q * Big + r (|r| < 2^22) stands for q * 2^53 + r: q = 1 are the stand-ins of the universe; q = 2, 3 and small
+	// negative r come from sums of up to three of them with small numbers
+	q := (a + Big/2) / Big
+	x := q*BigBase + (a - q*Big)
 	if v < 0 {
 		return -x
 	}
@@ -48,11 +51,15 @@ func IntAbstract(x int64) (int, bool) {
 	if a < 0 {
 		a = -a
 	}
-	switch {
-	case a >= 0 && a < Big:
+	if a >= 0 && a < Big/2 {
 		return int(x), true
-	case a >= BigBase && a < BigBase+(1<<20):
-		v := int(Big + (a - BigBase))
+	}
+	// additive on the stand-ins: the sum of up to three of them and of small numbers maps to the sum of their abstract
+	// values, so that TLC can judge sums of numbers beyond 2^53 (where float64 arithmetic is not exact)
+	q := (a + BigBase/2) / BigBase
+	r := a - q*BigBase
+	if q >= 1 && q <= 3 && r > -(1<<22) && r < (1<<22) {
+		v := int(q*Big + r)
 		if x < 0 {
 			v = -v
 		}
